@@ -18,6 +18,7 @@ import (
 	"encoding/binary"
 	"encoding/json"
 	"fmt"
+	"io"
 	"os"
 	"path/filepath"
 	"sort"
@@ -190,7 +191,8 @@ type material struct {
 	mdats   []topBox // the top-level mdat boxes in file order
 	seams   []int    // absolute offsets where a chunk / run / sample starts or ends
 	samples [][]sampleRef
-	prog    bool // progressive file with sample tables (CopySampleData applies)
+	prog    bool             // progressive file with sample tables (CopySampleData applies)
+	ftruth  *fragbuild.Truth // "frag": what the writer knows about the fragments
 }
 
 var (
@@ -246,6 +248,7 @@ func materialise(c *lazyCase) (*material, *harness.Fail) {
 			return nil, harness.Failf("harness|c08|build", "%v", err)
 		}
 		m.file = fragbuild.Concat(init, segs, truth)
+		m.ftruth = truth
 		top, err := walkTop(m.file)
 		if err != nil {
 			return nil, harness.Failf("harness|c08|walk", "%v", err)
@@ -653,6 +656,13 @@ func evalLazy(c *lazyCase, st *stats) *harness.Fail {
 		}
 	}
 
+	// ---- sample intervals of fragments (fragmented, harness-written)
+	if m.ftruth != nil && fN.IsFragmented() && fN.Init != nil && fN.Init.Moov != nil {
+		if fail := e.checkFragSamples(fN, fL); fail != nil {
+			return fail
+		}
+	}
+
 	// ---- whole-file encoding: the lazy output is the in-memory output without the mdat payloads
 	modes := []mp4.EncFragFileMode{mp4.EncModeSegment}
 	if fN.IsFragmented() {
@@ -790,16 +800,24 @@ func (e *evalCtx) checkRange(mi int, off, size int64) *harness.Fail {
 		want = e.m.file[start : start+size]
 	}
 	insideFile := start+size <= int64(len(e.m.file))
-	for mode := 0; mode < 2; mode++ {
+	for mode := 0; mode < 3; mode++ {
 		box, name := e.mdN[mi], "in-memory"
-		var rs *bytes.Reader
+		var rs io.ReadSeeker
 		if mode == 1 {
 			box, name, rs = e.mdL[mi], "lazy", e.rs
+		}
+		if mode == 2 {
+			// the same through a reader that delivers a few bytes per Read call
+			if (off+size)%4 != 0 || size > 1<<16 {
+				continue
+			}
+			box, name, rs = e.mdL[mi], "lazy", &shortRS{r: e.rs, max: 1 + int(off%5)}
+			e.st.class("reader-with-short-reads")
 		}
 		switch {
 		case mode == 0 && valid && off+size == P && e.c.avoid(e.st, "inmem-range-ending-at-last-payload-byte"):
 			continue
-		case mode == 1 && !valid && insideFile && box.IsLazy() && e.c.avoid(e.st, "lazy-range-outside-payload-not-refused"):
+		case mode >= 1 && !valid && insideFile && box.IsLazy() && e.c.avoid(e.st, "lazy-range-outside-payload-not-refused"):
 			continue
 		}
 		desc := func() string {
@@ -868,7 +886,7 @@ func workBufs(total, extra int) [][]byte {
 			out[i] = make([]byte, s)
 		}
 	}
-	return out
+	return append(out, []byte{}) // empty but not nil
 }
 
 func (e *evalCtx) checkSamples(fN, fL *mp4.File) *harness.Fail {
@@ -901,7 +919,12 @@ func (e *evalCtx) checkSamples(fN, fL *mp4.File) *harness.Fail {
 				ws := bufs[wi]
 				e.out.Reset()
 				st.queries++
-				if err := fL.CopySampleData(&e.out, e.rs, trL, a, b, ws); err != nil {
+				var rs io.ReadSeeker = e.rs
+				if (int(a)+int(b)+wi)%3 == 0 {
+					rs = &shortRS{r: e.rs, max: 1 + (int(a)+wi)%7}
+					st.class("reader-with-short-reads")
+				}
+				if err := fL.CopySampleData(&e.out, rs, trL, a, b, ws); err != nil {
 					return harness.Failf("C08|File.CopySampleData|lazy: error for a valid interval", "track %d samples %d..%d of %d, work buffer %d: %v", ti, a, b, n, len(ws), err)
 				}
 				if !bytes.Equal(e.out.Bytes(), want) {
@@ -964,6 +987,209 @@ func (e *evalCtx) checkSamples(fN, fL *mp4.File) *harness.Fail {
 			}
 			if err := fL.CopySampleData(&e.out, e.rs, trL, iv[0], iv[1], bufs[4]); err == nil {
 				return harness.Failf("C08|File.CopySampleData|lazy: no error for an interval outside the samples", "track %d samples %d..%d of %d", ti, iv[0], iv[1], n)
+			}
+		}
+	}
+	return nil
+}
+
+func layoutFrags(l *fragbuild.FileLayout) []fragbuild.Frag {
+	var out []fragbuild.Frag
+	for _, sg := range l.Segments {
+		out = append(out, sg.Frags...)
+	}
+	return out
+}
+
+// shortRS is a ReadSeeker that returns at most max bytes per Read call (io.Reader allows that: "Read reads up
+// to len(p) bytes"): a caller must not take one Read for a full buffer.
+type shortRS struct {
+	r   *bytes.Reader
+	max int
+}
+
+func (s *shortRS) Read(p []byte) (int, error) {
+	if len(p) > s.max {
+		p = p[:s.max]
+	}
+	return s.r.Read(p)
+}
+func (s *shortRS) Seek(off int64, whence int) (int64, error) { return s.r.Seek(off, whence) }
+
+// checkFragSamples: Fragment.GetSampleInterval (documented for both modes: the data itself in memory, offset
+// and size for a lazy mdat, to be read with MdatBox.ReadData) and Fragment.GetFullSamples (in-memory data; on
+// a lazy mdat either an error or the same samples, not a crash) for every fragment the writer laid out as one
+// traf with one trun, against the sample model.
+func (e *evalCtx) checkFragSamples(fN, fL *mp4.File) *harness.Fail {
+	c, st, m := e.c, e.st, e.m
+	var fragsN, fragsL []*mp4.Fragment
+	for si := range fN.Segments {
+		fragsN = append(fragsN, fN.Segments[si].Fragments...)
+		fragsL = append(fragsL, fL.Segments[si].Fragments...)
+	}
+	var truths []fragbuild.FragTruth
+	for _, sg := range m.ftruth.Segments {
+		truths = append(truths, sg.Frags...)
+	}
+	if len(fragsN) != len(truths) || len(fragsL) != len(truths) {
+		st.class("fragsamples:fragment-count-differs-from-layout")
+		return nil
+	}
+	for k, ft := range truths {
+		frN, frL := fragsN[k], fragsL[k]
+		if frN.Moof == nil || frN.Mdat == nil || frL.Moof == nil || frL.Mdat == nil {
+			continue
+		}
+		opts := layoutFrags(c.FLayout)[k].Opts
+		seenTrack := map[int]bool{}
+		for _, run := range ft.Runs {
+			if run.Trun != 0 {
+				continue
+			}
+			// GetFullSamples(trex) looks at the FIRST traf of the track in the fragment
+			if seenTrack[run.Track] {
+				st.class("fragsamples:further-traf-of-the-same-track-not-queried")
+				continue
+			}
+			seenTrack[run.Track] = true
+			if opts.Base == 2 && run.Traf > 0 {
+				// neither base-data-offset nor default-base-is-moof: the data offsets of a second traf count from the end
+				// of the data of the preceding traf (14496-12 8.8.7.1); the sample accessors of a fragment take the moof
+				// start for every traf. Reading such third-party layouts is no clause of C08: not queried.
+				st.class("fragsamples:legacy-base-in-second-traf-not-queried")
+				continue
+			}
+			// GetFullSamples(trex) returns the samples of all truns of the track's traf: collect the model's
+			tr := &c.FTracks[run.Track]
+			var trexN, trexL *mp4.TrexBox
+			if mv := fN.Init.Moov.Mvex; mv != nil {
+				trexN, _ = mv.GetTrex(tr.ID)
+			}
+			if mv := fL.Init.Moov.Mvex; mv != nil {
+				trexL, _ = mv.GetTrex(tr.ID)
+			}
+			if trexN == nil || trexL == nil {
+				return harness.Failf("C08|DecodeFile|no trex for a track of the file", "track %d", tr.ID)
+			}
+			var runs []fragbuild.RunTruth
+			for _, r := range ft.Runs {
+				if r.Track == run.Track && r.Traf == run.Traf {
+					runs = append(runs, r)
+				}
+			}
+			var model []fragbuild.Sample
+			var times []uint64
+			for _, r := range runs {
+				for i := r.First; i < r.First+r.N; i++ {
+					model = append(model, tr.Samples[i])
+					times = append(times, tr.DecodeTime(i))
+				}
+			}
+			st.queries += 2
+			st.class("fragsamples:GetFullSamples")
+			fsN, err := frN.GetFullSamples(trexN)
+			if err != nil {
+				return harness.Failf("C08|Fragment.GetFullSamples|in-memory: error on a valid fragment", "fragment %d track %d: %v", k, tr.ID, err)
+			}
+			if len(fsN) != len(model) {
+				return harness.Failf("C08|Fragment.GetFullSamples|in-memory: number of samples differs", "fragment %d track %d: %d, model %d", k, tr.ID, len(fsN), len(model))
+			}
+			for i := range model {
+				if !bytes.Equal(fsN[i].Data, model[i].Data) || fsN[i].DecodeTime != times[i] || fsN[i].Dur != model[i].Dur || fsN[i].CompositionTimeOffset != model[i].Cto {
+					return harness.Failf("C08|Fragment.GetFullSamples|in-memory: sample differs from the model", "fragment %d track %d sample %d: time %d dur %d cto %d data %s; model time %d dur %d cto %d data %s", k, tr.ID, i+1,
+						fsN[i].DecodeTime, fsN[i].Dur, fsN[i].CompositionTimeOffset, harness.HexTrunc(fsN[i].Data, 16), times[i], model[i].Dur, model[i].Cto, harness.HexTrunc(model[i].Data, 16))
+				}
+			}
+			var fsL []mp4.FullSample
+			var errL error
+			var crash interface{}
+			func() {
+				defer func() { crash = recover() }()
+				fsL, errL = frL.GetFullSamples(trexL)
+			}()
+			total := 0
+			for i := range model {
+				total += len(model[i].Data)
+			}
+			switch {
+			case crash != nil:
+				if total > 0 {
+					return harness.Failf("C08|Fragment.GetFullSamples|lazy: panic", "fragment %d track %d (%d samples, %d bytes): %v", k, tr.ID, len(model), total, crash)
+				}
+			case errL != nil:
+				st.class("fragsamples:GetFullSamples-refused-on-lazy-mdat")
+			default:
+				if len(fsL) != len(model) {
+					return harness.Failf("C08|Fragment.GetFullSamples|lazy: number of samples differs", "fragment %d track %d: %d, model %d", k, tr.ID, len(fsL), len(model))
+				}
+				for i := range model {
+					if !bytes.Equal(fsL[i].Data, model[i].Data) {
+						return harness.Failf("C08|Fragment.GetFullSamples|lazy: neither an error nor the sample data", "fragment %d track %d sample %d: %d bytes, model %d bytes", k, tr.ID, i+1, len(fsL[i].Data), len(model[i].Data))
+					}
+				}
+			}
+
+			// GetSampleInterval: one traf with one trun only
+			if len(ft.Runs) != 1 || len(frN.Moof.Trafs) != 1 || len(frN.Moof.Traf.Truns) != 1 {
+				continue
+			}
+			st.class("fragsamples:GetSampleInterval")
+			n := uint32(len(model))
+			pos := make([]int, n+1)
+			var all []byte
+			for i := range model {
+				all = append(all, model[i].Data...)
+				pos[i+1] = len(all)
+			}
+			var ivs [][2]uint32
+			if n <= 10 {
+				for a := uint32(1); a <= n; a++ {
+					for b := a; b <= n; b++ {
+						ivs = append(ivs, [2]uint32{a, b})
+					}
+				}
+			} else {
+				ivs = [][2]uint32{{1, 1}, {n, n}, {1, n}, {2, n}, {1, n - 1}, {n / 2, n/2 + 1}, {n / 3, 2 * n / 3}}
+			}
+			for qi, iv := range ivs {
+				a, b := iv[0], iv[1]
+				want := all[pos[a-1]:pos[b]]
+				absWant := run.DataOffset + uint64(pos[a-1])
+				for mode := 0; mode < 2; mode++ {
+					fr, trex, name := frN, trexN, "in-memory"
+					if mode == 1 {
+						fr, trex, name = frL, trexL, "lazy"
+					}
+					st.queries++
+					si, err := fr.GetSampleInterval(trex, a, b)
+					if err != nil {
+						return harness.Failf("C08|Fragment.GetSampleInterval|"+name+": error for a valid interval", "fragment %d samples %d..%d of %d: %v", k, a, b, n, err)
+					}
+					abs := fr.Mdat.PayloadAbsoluteOffset() + uint64(si.OffsetInMdat)
+					if int(si.Size) != len(want) || abs != absWant || si.FirstDecodeTime != times[a-1] || len(si.Samples) != int(b-a+1) {
+						return harness.Failf("C08|Fragment.GetSampleInterval|"+name+": interval differs from the model", "fragment %d samples %d..%d of %d: size %d at file offset %d time %d (%d samples); model size %d at %d time %d",
+							k, a, b, n, si.Size, abs, si.FirstDecodeTime, len(si.Samples), len(want), absWant, times[a-1])
+					}
+					if mode == 0 {
+						if !bytes.Equal(si.Data, want) {
+							return harness.Failf("C08|Fragment.GetSampleInterval|in-memory: data differs from the samples", "fragment %d samples %d..%d of %d: %s, model %s", k, a, b, n, harness.HexTrunc(si.Data, 24), harness.HexTrunc(want, 24))
+						}
+						continue
+					}
+					if len(want) == 0 || !fr.Mdat.IsLazy() {
+						continue
+					}
+					var rs io.ReadSeeker = e.rs
+					if qi%2 == 1 {
+						rs = &shortRS{r: e.rs, max: 1 + qi%5}
+						st.class("reader-with-short-reads")
+					}
+					st.queries++
+					got, err := fr.Mdat.ReadData(int64(abs), int64(si.Size), rs)
+					if err != nil || !bytes.Equal(got, want) {
+						return harness.Failf("C08|Fragment.GetSampleInterval|lazy: reading the interval with MdatBox.ReadData does not give the samples", "fragment %d samples %d..%d of %d, offset %d size %d: %v, got %s, model %s", k, a, b, n, abs, si.Size, err, harness.HexTrunc(got, 24), harness.HexTrunc(want, 24))
+					}
+				}
 			}
 		}
 	}
